@@ -2250,14 +2250,19 @@ fn usefulness(patterns: Vec<PatternStack>, q: PatternStack, defs: &Defs) -> Vec<
                                 meta,
                             ),
                         ),
+                        // (a constructor only wraps as many of the witness patterns as it has fields,
+                        // the remaining ones belong to the columns that follow it)
                         Ctor::Tuple(fields) => {
+                            let rest = witness.split_off(fields.len().min(witness.len()));
                             witness = vec![Pattern::typed(
                                 PatternEnum::Tuple(witness),
                                 Type::Tuple(fields.clone()),
                                 meta,
-                            )]
+                            )];
+                            witness.extend(rest);
                         }
                         Ctor::Struct(struct_name, fields) => {
+                            let rest = witness.split_off(fields.len().min(witness.len()));
                             let witness_fields: Vec<_> = fields
                                 .iter()
                                 .zip(witness.into_iter())
@@ -2267,16 +2272,21 @@ fn usefulness(patterns: Vec<PatternStack>, q: PatternStack, defs: &Defs) -> Vec<
                                 PatternEnum::Struct(struct_name.clone(), witness_fields),
                                 Type::Struct(struct_name.clone()),
                                 meta,
-                            )]
+                            )];
+                            witness.extend(rest);
                         }
                         Ctor::Variant(enum_name, variant_name, None) => {
-                            witness = vec![Pattern::typed(
-                                PatternEnum::EnumUnit(enum_name.clone(), variant_name.clone()),
-                                Type::Enum(enum_name.clone()),
-                                meta,
-                            )]
+                            witness.insert(
+                                0,
+                                Pattern::typed(
+                                    PatternEnum::EnumUnit(enum_name.clone(), variant_name.clone()),
+                                    Type::Enum(enum_name.clone()),
+                                    meta,
+                                ),
+                            );
                         }
-                        Ctor::Variant(enum_name, variant_name, Some(_)) => {
+                        Ctor::Variant(enum_name, variant_name, Some(fields)) => {
+                            let rest = witness.split_off(fields.len().min(witness.len()));
                             witness = vec![Pattern::typed(
                                 PatternEnum::EnumTuple(
                                     enum_name.clone(),
@@ -2285,7 +2295,8 @@ fn usefulness(patterns: Vec<PatternStack>, q: PatternStack, defs: &Defs) -> Vec<
                                 ),
                                 Type::Enum(enum_name.clone()),
                                 meta,
-                            )]
+                            )];
+                            witness.extend(rest);
                         }
                         Ctor::Array(elem_ty, size) => witness.insert(
                             0,
